@@ -1,4 +1,6 @@
 import BfeVerif.C42.Proofs
+import BfeVerif.C42.Cbc
+import BfeVerif.C43.Props
 /-!
   C42 — TLS records are integrity-protected.  Property theorems only.
 
@@ -54,6 +56,61 @@ theorem C42_eof_only_close_or_exhausted {dec enc vers sent} (ha : Authentic dec 
   obtain ⟨hinv, _⟩ := serve_inv (vers := vers) ha (w.length + 1) { raw := w } (inv_init enc vers sent w) rfl
   exact ⟨hinv.eofx he, hinv.eofc he⟩
 
+/-- **C42_sticky.**  Once `Conn.Read` has returned an error `e` (any `c.in.err`: bad_record_mac, EOF, …),
+    every later Read returns `e` again and hands NOTHING to the application — whatever `readRecord` left in
+    `c.input` (after a failed decrypt of an application-data record the unauthenticated raw block IS parked
+    there, see the example below), because the sticky error is tested before `c.input` is looked at.
+    Holds for every state, hence for the state any adversarial stream `w` leads to. -/
+theorem C42_sticky (dec : Nat → UInt8 → Bytes → Dec) (vers : UInt8 × UInt8) (st : St) (e : Err)
+    (he : st.err = some e) (k : Nat) :
+    readMore dec vers k st = ([], List.replicate k (some e)) := by
+  have h1 : readAgain dec vers st = (st, [], some e) := by
+    unfold readAgain
+    simp [he]
+  induction k with
+  | zero => rfl
+  | succ k ih => simp [readMore, h1, ih, List.replicate_succ]
+
+/-- in particular after the first error of a run on any stream -/
+theorem C42_sticky_run (dec : Nat → UInt8 → Bytes → Dec) (vers : UInt8 × UInt8) (w : Bytes) (e : Err)
+    (he : (runStream dec vers w).err = some e) (k : Nat) :
+    readMore dec vers k (runStream dec vers w) = ([], List.replicate k (some e)) :=
+  C42_sticky dec vers _ e he k
+
+/-- **C42_cbc_accepts_only_padded_and_maced.**  The CBC branch of decrypt (composed with C43's removePadding)
+    accepts a record body only if the decrypted blocks carry VALID TLS padding (C43's specification `ValidPad`,
+    through `C43_good_iff`) and the bytes in front of the padding are exactly `plaintext ++ MAC(seq, type, plaintext)`.
+    So a CBC suite meets `Authentic` as soon as its MAC and block cipher are ideal; a padding defect (as C43 had
+    before its fix) would surface here as a body accepted with invalid padding. -/
+theorem C42_cbc_accepts_only_padded_and_maced (blockSize macSize explicitIV : Nat) (unblock : Bytes → Bytes → Bytes)
+    (mac : Nat → UInt8 → Bytes → Bytes) (seq : Nat) (typ : UInt8) (body p : Bytes)
+    (hlen : (unblock (body.take explicitIV) (body.drop explicitIV)).length < 2 ^ 31)
+    (h : cbcDecrypt blockSize macSize explicitIV unblock mac seq typ body = .ok p) :
+    BfeVerif.C43.ValidPad ((unblock (body.take explicitIV) (body.drop explicitIV)).map toBV) ∧
+    (BfeVerif.C43.removePadding ((unblock (body.take explicitIV) (body.drop explicitIV)).map toBV)).1.map ofBV
+      = p ++ mac seq typ p := by
+  unfold cbcDecrypt at h
+  split at h
+  · cases h
+  · simp only [] at h
+    split at h
+    · cases h
+    · split at h
+      · cases h
+      · rename_i hc
+        have hc' := not_or.mp hc
+        have hgood := Decidable.not_not.mp hc'.2
+        have hmac := Decidable.not_not.mp hc'.1
+        cases h
+        refine ⟨(BfeVerif.C43.C43_good_iff _ (by simpa using hlen)).mp hgood, ?_⟩
+        rw [hmac, List.take_append_drop]
+
+/-- the hypothesis of the CBC theorem is satisfiable: a toy cipher (identity) and MAC (one length byte), block
+    size 4: `[1,2] ++ mac ++ padding [0]` is accepted, a wrong padding byte or MAC byte is not -/
+example : cbcDecrypt 4 1 0 (fun _ c => c) (fun _ _ d => [UInt8.ofNat d.length]) 0 23 [1, 2, 2, 0] = .ok [1, 2] := by decide
+example : cbcDecrypt 4 1 0 (fun _ c => c) (fun _ _ d => [UInt8.ofNat d.length]) 0 23 [1, 2, 2, 5] = .fail 2 := by decide
+example : cbcDecrypt 4 1 0 (fun _ c => c) (fun _ _ d => [UInt8.ofNat d.length]) 0 23 [1, 2, 3, 0] = .fail 2 := by decide
+
 /-- The full-strength detection statement: an orderly end (`io.EOF`) is reported only after the
     peer's close_notify.  The unchanged code does NOT satisfy it (see `C42_witness_truncation`):
     `readRecord` deliberately maps a transport EOF at a record boundary (and inside a record
@@ -92,6 +149,13 @@ example : (runStream (idealDec toyEnc exSent) (3, 3)
     (runStream (idealDec toyEnc exSent) (3, 3)
       (frame (3, 3) 23 (toyEnc 1 23 [3]) ++ frame (3, 3) 23 (toyEnc 0 23 [1, 2]))).err
         = some (.localAlert 20) := by decide
+
+/-- a forged application-data record: the unauthenticated block is parked in `c.input`, the error is
+    bad_record_mac, and four more Reads deliver nothing -/
+example : (runStream (idealDec toyEnc exSent) (3, 3) (frame (3, 3) 23 [9, 9, 9])).input.isSome = true ∧
+    (runStream (idealDec toyEnc exSent) (3, 3) (frame (3, 3) 23 [9, 9, 9])).err = some (.localAlert 20) ∧
+    readMore (idealDec toyEnc exSent) (3, 3) 4 (runStream (idealDec toyEnc exSent) (3, 3) (frame (3, 3) 23 [9, 9, 9]))
+      = ([], [some (.localAlert 20), some (.localAlert 20), some (.localAlert 20), some (.localAlert 20)]) := by decide
 
 /-- **C42_witness_truncation.**  The full-strength statement fails: cutting the stream after the first
     record yields `io.EOF` with only `[1,2]` delivered and no close_notify seen. -/
